@@ -143,6 +143,11 @@ def runOp (cs : Suite G1Pt) (op : String) (a : List String) : Option (Res Bytes)
     match proofObj proof with
     | some π => pure <| unit (blindProofVerify env cs π pk hdr ph L dmsgs dcmsgs idx cidx)
     | none => none
+  | "prepparams", [msgs, cmsgs, gn, bgn, blind, api] => do
+    let msgs ← pOList msgs; let cmsgs ← pOList cmsgs; let gn ← pNat gn; let bgn ← pNat bgn
+    let blind ← pOScalar blind; let api ← pOBytes api
+    pure <| mapR (fun r => r.1.flatMap env.sEnc ++ r.2.values.flatMap env.g1Enc)
+      (prepareParameters env cs msgs cmsgs gn bgn blind api)
   | "update", [A, e, sk, old, new, idx, n] => do
     let A ← pG1 A; let e ← pScalar e; let sk ← pScalar sk; let old ← pBytes old; let new ← pBytes new
     let idx ← pNat idx; let n ← pNat n
